@@ -118,7 +118,7 @@ def run(ctx: Ctx, rep: Report) -> None:
     rep.rule("C16-R4", "both variants consume the single-root (bulk) walk completely and in order", floor=2)
     rep.rule("C16-R5", "the wrapper keeps '0' and pythonises the other cells", floor=1)
     rep.rule("C16-R6", "no cell from outside the table: the walk's containment / once-only filter (shared with C01-R1/R2)", floor=4)
-    rep.rule("C16-R9", "the pythonic table methods hand the OID, bulk size and row type to the raw table fetches one-to-one (shared with C15-R4)", floor=2)
+    rep.rule("C16-R9", "the pythonic table methods hand the OID, bulk size and row type to the raw table fetches one-to-one (shared with C15-R4)", floor=1)
     rep.rule("C16-R8", "a table at the end of an SNMPv1 agent's MIB: the class construct() builds for noSuchName is the one the walk loop ends quietly on", floor=1)
     rep.rule("C16-R7", "the GETBULK walk used by bulktable delivers what the GETNEXT walk delivers (shared with C02-R1..R5)", floor=30)
     rep.assumptions += ["the walk delivers exactly the instances below the root (C01 / C02)", "table() is addressed by the entry OID and bulktable() by the table OID, as documented"]
